@@ -267,6 +267,10 @@ def su2_cases(ctx, rnd, n):
         ctx.distinct.add(("su2", k))
         # the extracted angles reproduce the matrix: X = Rz(gamma) Ry(beta) Rz(alpha), i.e. entry-wise
         # x_{mn} = D^{1/2 *}_{nm}(alpha,beta,gamma) (transposed), indices (-1/2, +1/2) <-> (0, 1)
+        # the contract of the code's beta = 2 atan2(|x10|, |x11|) (hypotheses of C12_euler_extract_reproduces_atan2)
+        cases.append(("su2_%d_contract" % k,
+                      "(%s /\\ %s)" % (real_stmt("cos (%s / 2)" % Rq(be), abs(x[1][1]), rtol=0, atol=atol), real_stmt("sin (%s / 2)" % Rq(be), abs(x[1][0]), rtol=0, atol=atol)),
+                      RT, {"fn": "SU2M.get_euler_angle (beta contract)", "kind": kind, "x": str(x), "euler": [al, be, ga]}))
         for (i, m2) in ((0, -1), (1, 1)):
             for (j, n2) in ((0, -1), (1, 1)):
                 cases.append(("su2_%d_%d%d" % (k, i, j),
